@@ -67,6 +67,9 @@ def cases(tier):
     # full enumeration, split by first operation to spread over workers
     for first in range(len(enabled_ops(1, 1))):
         out.append({'part': 'bind-full', 'depth': depth, 'first': first})
+    # longer histories on a single dataset object (no copies): what one object remembers about earlier attempts
+    for first in range(len(enabled_ops(1, 1))):
+        out.append({'part': 'bind-full', 'depth': 5 if tier == 'quick' else 6, 'first': first, 'max_objects': 1})
     return out
 
 
@@ -478,7 +481,8 @@ def classify(problem) -> str:
 def run_bind_full(case, rec):
     fp = "C11/bind"
     depth = case['depth']
-    first_ops = enabled_ops(1)
+    max_objects = case.get('max_objects', 3)
+    first_ops = enabled_ops(1, max_objects)
     start = [first_ops[case['first']]]
 
     def extend(history, nobjects):
@@ -493,10 +497,10 @@ def run_bind_full(case, rec):
         if len(history) >= depth:
             return
         n = len(world.objects)
-        for op in enabled_ops(n):
+        for op in enabled_ops(n, max_objects):
             extend(history + [op], n)
     extend(start, 1)
-    rec.outcome(['bind-full', case['first'], depth])
+    rec.outcome(['bind-full', case['first'], depth, max_objects])
 
 
 def run_bind_bfs(case, rec):
